@@ -239,6 +239,23 @@ Section IDFacts.
 End IDFacts.
 
 (* ---------------- small list / string facts ---------------- *)
+Lemma string_in_iff x l : string_in x l = true <-> In x l.
+Proof.
+  unfold string_in. rewrite existsb_exists. split.
+  - intros (y & Hy & E). apply String.eqb_eq in E. now subst.
+  - intro Hx. exists x. split; [exact Hx | apply String.eqb_refl].
+Qed.
+
+Lemma subset_of_iff a b : subset_of a b = true <-> incl a b.
+Proof.
+  unfold subset_of, incl. rewrite forallb_forall. split; intros Hs x Hx.
+  - apply string_in_iff. now apply Hs.
+  - apply string_in_iff. now apply Hs.
+Qed.
+
+Lemma subset_of_refl l : subset_of l l = true.
+Proof. apply subset_of_iff. apply incl_refl. Qed.
+
 Lemma strs_eqb_refl l : strs_eqb l l = true.
 Proof. unfold strs_eqb. induction l as [|x l IH]; cbn; [reflexivity|]. now rewrite eqb_refl_s, IH. Qed.
 
@@ -484,8 +501,10 @@ Proof.
   - rewrite Iamr. apply strs_eqb_refl.
   - rewrite Iauth, Hsk. destruct (is_exchange (cs_flow c)).
     + apply andb_true_intro; split; lia.
-    + unfold shifted_auth_time, zabs_le. destruct (Z.eqb (rq_auth_time (cs_req c)) 0) eqn:E0; [reflexivity|].
-      cbn [orb]. apply andb_true_intro; split; lia.
+    + unfold shifted_auth_time, zabs_le. destruct (Z.eqb (rq_auth_time (cs_req c)) 0) eqn:E0.
+      * destruct (Z.eqb (cl_skew (cs_client c)) 0) eqn:Es; [reflexivity|].
+        apply orb_true_iff; right. apply andb_true_intro; split; lia.
+      * apply andb_true_intro; split; lia.
   - rewrite Iiat, Hsk. lia.
   - rewrite Iiat, Hsk. lia.
   - rewrite Iexp, Iiat, Hsk. unfold zabs_le. apply andb_true_intro; split; lia.
@@ -652,14 +671,14 @@ Proof.
     pose proof (expires_in_bracket (cs_now0 c) (cl_at_life cl) (cl_skew cl)) as Hb. cbv zeta in Hb.
     rewrite <- Hex in Hb.
     unfold mk_access. fold cl. rewrite Hst, Hsc, the_skew_eff. fold cl.
-    destruct (cl_jwt_at cl); split_and; try apply strs_eqb_refl; lia.
+    destruct (cl_jwt_at cl); split_and; try apply strs_eqb_refl; try apply subset_of_refl; lia.
   - unfold model_response, create_token_response. cbn [r_expires_in]. now rewrite Eha.
 Qed.
 
 (* ---------------- the central theorem ---------------- *)
 Theorem spec_model : forall c, wf c = true -> spec (ICase c) (model (ICase c)) = true.
 Proof.
-  intros c Hw. apply wf_elim in Hw. cbn [model spec]. split_and.
+  intros c Hw. apply wf_elim in Hw. cbn [model spec]. unfold model_case, spec_case. split_and.
   - apply keys_served_model.
   - destruct (r_id (model_response c)) as [[j ic]|] eqn:Eid; [|reflexivity].
     now apply id_token_ok_model.
